@@ -1,14 +1,16 @@
 PLAN = {
     "level": "exploration",
-    "quick": [replays("C05"), tape("C05", 2400, size=300)],
-    "thorough": [replays("C05"), tape("C05", 40000, size=400)],
+    "quick": [replays("C05"), tape("C05", 1200, size=250)],
+    # the analyser's address space grows by ~2 MB per case under ASan (not released until exit), so the thorough budget is
+    # cut into stages whose workers each run 125 cases (< 1 GB per worker) instead of one stage with 1 000 per worker
+    "thorough": [replays("C05")] + [tape("C05", 2000, size=350, seed_offset=200 * k, name="C05:rc/%d" % k) for k in range(8)],
     "class_floors": {
         "type:ode": 0.15, "type:dae": 0.05, "type:nla": 0.04, "type:algebraic": 0.1,
         "variant-type:underconstrained": 0.1, "variant-type:overconstrained": 0.02, "variant-type:unsuitably_constrained": 0.01, "variant-type:invalid": 0.08,
-        "multi-component": 0.4, "nla-with-guesses": 0.05, "nla-single-unknown": 0.02, "reads-nla-unknown": 0.03, "initial-value-on-another-instance": 0.05,
-        "class-with-differently-named-instances": 0.2, "primary-variable-changed": 0.03,
+        "multi-component": 0.4, "nla-with-guesses": 0.05, "nla-single-unknown": 0.02, "reads-nla-unknown": 0.03, "initial-value-on-another-instance": 0.03,
+        "names:class-members-differ": 0.2, "names:collision-across-components": 0.15, "names:primary-name-reused-in-computing-component": 0.04, "primary-variable-changed": 0.03,
         "transform:permute-components": 0.2, "transform:permute-variables": 0.2, "transform:permute-equations": 0.2, "transform:reverse-connections": 0.2, "transform:swap-sides": 0.2,
-        "transform:rename-components": 0.2, "transform:rename-units": 0.2, "transform:rename-variables/2": 0.05, "transform:rename-variables/3": 0.05,
+        "transform:rename-components": 0.2, "transform:rename-units": 0.2, "transform:rename-variables/2": 0.05, "transform:rename-variables/3": 0.05, "transform:rename-variables/4": 0.05,
     },
 }
 CLAIM = {
